@@ -15,6 +15,7 @@ import (
 	"regexp"
 	"strconv"
 	"strings"
+	"sync"
 	"time"
 )
 
@@ -761,7 +762,7 @@ func c11Gen(tier string, rng *rand.Rand, emit func(Case)) {
 
 func init() {
 	register(&Prop{
-		ID: "C03", Gen: c03Gen, Impl: useImpl, Oracle: c03Oracle,
+		ID: "C03", Gen: c03Gen, Impl: useImpl, Oracle: withUseReference(c03Oracle),
 		FindingKey: func(line, out, clause string) string { return clause },
 		Nontrivial: func(line, out string) bool { return strings.Count(line, " b1:") >= 2 },
 		NoShrink:   true, Timeout: 30 * time.Second,
@@ -769,7 +770,7 @@ func init() {
 		Assumptions: []string{"a DONE with final status is the last package of its response (TDS: it ends the response)", "a round is started only after its response has arrived completely (reads that wait for packets are covered by the Lean model `blocked` and by C14)"},
 	})
 	register(&Prop{
-		ID: "C11", Gen: c11Gen, Impl: useImpl, Oracle: c11Oracle,
+		ID: "C11", Gen: c11Gen, Impl: useImpl, Oracle: withUseReference(c11Oracle),
 		FindingKey: func(line, out, clause string) string { return clause },
 		Nontrivial: func(line, out string) bool { return !strings.HasSuffix(out, "H=[]") },
 		NoShrink:   true, Timeout: 30 * time.Second,
@@ -792,5 +793,72 @@ func genEnvMember(rng *rand.Rand) [3]string {
 	default:
 		ty := []string{"\x01", "\x02", "\x03", "\x05", "\x07"}[rng.Intn(5)]
 		return [3]string{ty, vals[rng.Intn(len(vals))], vals[rng.Intn(len(vals))]}
+	}
+}
+
+// ---------------------------------------------------------------------------------------------
+// reference for the lines the scanner above cannot take apart (result sets: the length of a row depends
+// on its format): the same responses, each delivered in ONE packet and without any send in between. When
+// every round starts at a message boundary and no hook is registered inside a message, what the consumer
+// and the hooks see is a function of the responses alone, so the two answers must be the same.
+
+const useClauseRef = "a response that arrives in several packets, or while the client is sending, is consumed exactly like the same response arriving in one packet (same packages per round, same result, same hook calls, nothing left behind)"
+
+var useRefCache sync.Map
+
+func useReferenceLine(line string) (string, bool) {
+	f := strings.Fields(line)
+	if len(f) < 5 || f[0] != "use" {
+		return "", false
+	}
+	out := append([]string{}, f[:4]...)
+	var body []byte
+	changed := false
+	for _, t := range f[4:] {
+		switch {
+		case t == "snd":
+			changed = true
+		case t == "r" || t == "+e" || t == "+n" || strings.HasPrefix(t, "h:") || strings.HasPrefix(t, "H:"):
+			if len(body) != 0 {
+				return "", false // inside a message: the answer depends on the packetisation
+			}
+			out = append(out, t)
+		case strings.HasPrefix(t, "b0:"):
+			body = append(body, unhx(t[3:])...)
+			changed = true
+		case strings.HasPrefix(t, "b1:"):
+			body = append(body, unhx(t[3:])...)
+			out = append(out, "b1:"+hx(body))
+			body = nil
+		default:
+			return "", false
+		}
+	}
+	if len(body) != 0 || !changed {
+		return "", false
+	}
+	return strings.Join(out, " "), true
+}
+
+func withUseReference(oracle func(line, out string) string) func(line, out string) string {
+	return func(line, out string) string {
+		if c := oracle(line, out); c != "" {
+			return c
+		}
+		ref, ok := useReferenceLine(line)
+		if !ok || out == "bad-op" {
+			return ""
+		}
+		var want string
+		if v, ok := useRefCache.Load(ref); ok {
+			want = v.(string)
+		} else {
+			want = useImpl(ref)
+			useRefCache.Store(ref, want)
+		}
+		if want != out {
+			return useClauseRef
+		}
+		return ""
 	}
 }
